@@ -64,6 +64,17 @@ LEVEL_TEXT = ("Theorems (Coq/MathComp, every size, every field): the model's Lap
               "(C05_pivot_row_unit_free: column times any d != 0 gives the same row; C05_pivot_row_example); in floating point this is checked by S4 on matrices whose row exchange matters, "
               "as a whole at the entry exponents where products of 2..7 entries over-/underflow and with single columns in such units (there the accuracy clauses are evaluated with the "
               "power-of-two column units taken out, which changes no comparison and no rounding of the elimination inside the double range). "
+              "The other determinant clauses in rounded arithmetic (same standard-model premise, every size, E = (1+u)^e(N) - 1): Determinant() of M and of M.Transpose() differ by "
+              "<= 2E perm|M| (C05_det_round_transpose); for the rows of M in the order of ANY permutation t, |d' - sign(t) d| <= 2E perm|M| (C05_det_round_row_perm; one exchange: "
+              "|d' + d| <= 2E perm|M|, C05_det_round_row_swap; as a call history of any number of std::swap(M[i], M[j]) on one object, by induction over the history: "
+              "C05_swaps_then_det_rounded, exact arithmetic: C05_swaps_then_det gives (-1)^k det A and an unchanged Invertible(); the entries after such a history are the permuted rows "
+              "in EVERY arithmetic, C05_swaps_entries); for a triangular matrix |d - prod m_ii| <= E |prod m_ii|, a relative bound (C05_det_round_triangular); these rest on "
+              "perm|A^T| = perm|A| = perm|P A| and perm|A| = prod|a_ii| for triangular A (C05_perm_invariants). 'Multiplicative' in rounded arithmetic is NOT a theorem (S4 clause 'multiplicative'). "
+              "Outcomes in EVERY arithmetic, every size (IEEE doubles with NaN / inf included; C05_any_arith_square, C05_any_arith_nonsquare): on a square matrix Determinant() returns a number "
+              "(never the recursion bound, never a failed Sub_Matrix), Invertible() is the test of that number against 0.0, Inverse() exits when it is 0.0 and otherwise either exits with "
+              "'Matrix is singular.' or returns an N x N matrix; non-square: Exit / false / Exit / Orthogonal() false. "
+              "Exact arithmetic: what Inverse() returns is invmx M = adj(M) / Determinant(), det X = 1/det M (C05_inverse_adjugate); the identities X - M^-1 = (XM - 1) M^-1 and "
+              "MX - 1 = M (XM - 1) M^-1 behind 'X*M is the identity to that accuracy and M*X to one further factor of the condition number' (C05_inverse_error_identities) - identities only. "
               "NOT a theorem: the floating-point accuracy clause for Inverse (c*n*kappa*eps, backward stability of Gauss-Jordan with partial pivoting) - it is "
               "checked in S4 against the exact rational inverse of the double-valued input; likewise Orthogonal() in floating point is only compared with the model. "
               "Call histories on one object: for every arithmetic the model's answer depends on the current "
